@@ -29,18 +29,24 @@
                                     (`rows.drop (tailStart rows ⌊T·β⌋)`), all rows for an absent scaffold;
         `ceil_script_no_leftovers`  with the ceiling choice a present scaffold has no left-over at all.
 
+    S4' `deep_script_is_DeepCut`    a well-formed, unpainted script whose interior cuts each fall between contigs OR deeper
+                                    than `3·errLen` inside a contig (`DeepScript`; any number of cuts per contig) gives a map
+                                    in the class `C02.DeepCutN` of `Properties/C02Deep.lean`;
+        `deep_script_rearranges`    hence `C02.deep_map_rearranges` is a theorem about such scripts;
+        `deep_script_site`          the cut sites, in script terms: two consecutive pieces of one input scaffold that both meet
+                                    a contig form a `SiteOk` site of it.
+
   FOUND FALSE (statement of the task, kept as a finding): "every cut within `errLen` of a contig boundary ⇒ `Aligned`".
     `cut_near_boundary_not_aligned`: a cut 4 bases inside a contig (errLen = 9) gives a map that is NOT `Aligned` — the
     contig is looked up by both neighbouring pieces (`disjoint` fails) and sticks out of one of them by more than `errLen`
     (`startOk` fails).  `Aligned` needs cuts that no contig straddles; cuts a few bases inside a contig are handled by
     `trim_large_overhangs` (evaluated: `cut_near_boundary_still_remaps`) but are outside the class `Aligned`.
-
-  NOT DONE: `deep_script_is_DeepCut` (bridge to `C02.DeepCutN`, cuts deeper than `3·errLen` inside contigs) — see the
-    comment at the end of this file for the precise statement that is missing.
 -/
 import AgpTpf.Proofs.C02SCheck
 import AgpTpf.Proofs.C02SLeft
 import AgpTpf.Proofs.C02SErr
+import AgpTpf.Proofs.C02SDeepE
+import AgpTpf.Properties.C02Deep
 import AgpTpf.Properties.C08
 import AgpTpf.Properties.C02Aligned
 namespace AgpTpf.C02
@@ -570,23 +576,134 @@ theorem cut_near_boundary_still_remaps :
       (fun r => (r.1.map (fun a => a.scaffolds.map (fun s => (s.name, s.rows))), r.2.cuts)) =
     some ([[(sW.name, [.frag w1, .gap jg, .frag w2])]], 0) := by decide +kernel
 
-/-
-  NOT DONE — `deep_script_is_DeepCut` (S4 for cuts deep inside contigs).  Intended statement:
+/-! ## S4' — cuts deep inside contigs -/
 
-    theorem deep_script_is_DeepCut {input s} (hw : wfScript input s = true) (hin : InputOk input)
-        (hoid : ∀ sc ∈ input, (C18.ids sc.rows).Nodup) (hh : HeadsOk input s) (ht : TailOk input s)
-        (hup : ∀ g ∈ s.groups, g.painted = false)
-        (hdeep : ∀ i sc c, input[i]? = some sc → s.scafs[i]? = some c → c.present = true →
-           (∀ t ∈ c.cuts, ∀ k f, sc.rows[k]? = some (.frag f) →            -- every interior cut: clean, or deeper than
-              CleanAtRow … ∨ (3·errLen < ⌊t·β⌋ − start_k + 1 ∧ 3·errLen < end_k − ⌊t·β⌋)) ∧ …end/touch as in `ScafClean`…) :
-        DeepCutN input (ptxOf input s) (errLen s.p s.q)
+/-- **S4, deep cuts.**  A well-formed, unpainted script is in the class `DeepCutN` (at the error length `1 + ⌊β⌋`) when
+    * `DeepScript`: per present scaffold, for every interior cut `c | c + 1` and every contig (spanning `[a, b]`): the
+      contig does not straddle the cut, or the cut is deeper than `3·errLen` inside it on both sides
+      (`3·errLen < c − a + 1` and `3·errLen < b − c`) — any number of cuts per contig; the end of the last piece and the
+      "every piece touches a contig" clause as in `CleanScript`;
+    * `InputOk`, `HeadsOk`, `TailOk` as for S4; no input scaffold holds the same Fragment object twice; input contigs are
+      forward or reverse (`trim_fragment` needs a strand).
+    (Checker: `deepScriptB`, `deepScript_of_check`.)  `CleanScript` is the special case without the third alternative
+    (`CleanScript.deep`). -/
+theorem deep_script_is_DeepCut {input : List Scaffold} {s : Script} (hw : wfScript input s = true)
+    (hin : InputOk input) (hoid : ∀ sc ∈ input, (C18.ids sc.rows).Nodup)
+    (hstr : ∀ sc ∈ input, ∀ f ∈ sc.fragments, f.strand = 1 ∨ f.strand = -1)
+    (hd : DeepScript input s) (hh : HeadsOk input s) (ht : TailOk input s)
+    (hup : ∀ g ∈ s.groups, g.painted = false) :
+    DeepCutN input (ptxOf input s) (errLen s.p s.q : Int) :=
+  script_deepCutN (wfScript_spec hw) hin hoid hstr hd hh ht hup
 
-  What is missing is the description of `sitesN input (ptxOf input s)` (the registry-derived chains of holders of every
-  shared contig, sorted by bait start) in terms of the script: that the holders of a contig are the pieces whose spans meet
-  its row, that consecutive holders are consecutive pieces of the tiling (hence `abut`, `samePos`), and the two overlap
-  bounds `deepA` / `deepB`.  The ingredients proved here that it would use: `mem_itemKeys` (holders = pieces meeting the
-  row), `spansFrom_pairwise` / `AbutFrom.next` (consecutive pieces abut), `script_piece_long` (a piece wholly inside a
-  contig shares ≥ `errLen` bases with it), `lookup_some` (span of a result).
--/
+theorem deep_script_def (input : List Scaffold) (s : Script) :
+    DeepScript input s ↔
+      ∀ (i : Nat) (sc : Scaffold) (c : ScafScript), input[i]? = some sc → s.scafs[i]? = some c → c.present = true →
+        (∀ t ∈ c.cuts, ∀ k f, sc.rows[k]? = some (.frag f) →
+          (rowSpan sc.rows k).2 ≤ (coord s.p s.q t : Int) ∨ (coord s.p s.q t : Int) < (rowSpan sc.rows k).1 ∨
+          (3 * (errLen s.p s.q : Int) < (coord s.p s.q t : Int) - (rowSpan sc.rows k).1 + 1 ∧
+           3 * (errLen s.p s.q : Int) < (rowSpan sc.rows k).2 - (coord s.p s.q t : Int))) ∧
+        (∀ k f, sc.rows[k]? = some (.frag f) → (rowSpan sc.rows k).1 ≤ (coord s.p s.q c.T : Int) →
+          (rowSpan sc.rows k).2 - (coord s.p s.q c.T : Int) ≤ (errLen s.p s.q : Int)) ∧
+        (∀ ab ∈ c.spans s.p s.q, ∃ k, meets sc.rows ab.1 ab.2 k = true) := by
+  constructor
+  · intro h i sc c hi hc hp
+    exact ⟨(h i sc c hi hc hp).cuts, (h i sc c hi hc hp).last, (h i sc c hi hc hp).touch⟩
+  · intro h i sc c hi hc hp
+    exact ⟨(h i sc c hi hc hp).1, (h i sc c hi hc hp).2.1, (h i sc c hi hc hp).2.2⟩
+
+/-- **C02 (deep cuts) for every such script**: `deep_map_rearranges` applies. -/
+theorem deep_script_rearranges {input : List Scaffold} {s : Script} (hw : wfScript input s = true)
+    (hin : InputOk input) (hoid : ∀ sc ∈ input, (C18.ids sc.rows).Nodup)
+    (hstr : ∀ sc ∈ input, ∀ f ∈ sc.fragments, f.strand = 1 ∨ f.strand = -1)
+    (hd : DeepScript input s) (hh : HeadsOk input s) (ht : TailOk input s)
+    (hup : ∀ g ∈ s.groups, g.painted = false) (prefix_ : Str) (jg : Gap)
+    (hnc : NoClashDeepN input (ptxOf input s) jg) :
+    ∃ stats, remap input (ptxOf input s) prefix_ (some jg) (errLen s.p s.q : Int) =
+        .ok (primaryOnly (expectedScaffoldsDeepN input (ptxOf input s) jg), stats) ∧
+      stats.cuts = (incidencesN input (ptxOf input s) : Int) - ((sharedKeys input (ptxOf input s)).length : Int) :=
+  deep_map_rearranges input _ prefix_ jg _ (deep_script_is_DeepCut hw hin hoid hstr hd hh ht hup) hnc hstr
+
+/-- **the cut sites, in script terms.**  If the pieces at map positions `a` and `b` are pieces `aba`, `abb` of input
+    scaffold `i`, `abb` beginning one base after `aba` ends, and both meet the contig `F` in row `r`, then `(a, b)` is a
+    cut site of `F` in the sense of `SiteOk`: `F` is the last row of `a`'s lookup result and the first of `b`'s, at the
+    same scaffold coordinates, each sharing more than `3·errLen` bases with it or lying wholly inside it. -/
+theorem deep_script_site {input : List Scaffold} {s : Script} (hw : wfScript input s = true) (hin : InputOk input)
+    (hd : DeepScript input s) {i : Nat} {sc : Scaffold} {c : ScafScript} (hsc : input[i]? = some sc)
+    (hc : s.scafs[i]? = some c) {r : Nat} {F : Fragment} (hr : sc.rows[r]? = some (.frag F))
+    (hstr : F.strand = 1 ∨ F.strand = -1) {a b : Nat} {bxa bxb : Bool × Placed} {aba abb : Nat × Nat}
+    (ha : (itemsT s)[a]? = some bxa) (hai : bxa.2.sc = i) (haab : (c.spans s.p s.q)[bxa.2.k]? = some aba)
+    (ham : meets sc.rows aba.1 aba.2 r = true)
+    (hb : (itemsT s)[b]? = some bxb) (hbi : bxb.2.sc = i) (hbab : (c.spans s.p s.q)[bxb.2.k]? = some abb)
+    (hbm : meets sc.rows abb.1 abb.2 r = true) (habut : aba.2 + 1 = abb.1) :
+    SiteOk input (ptxOf input s) (errLen s.p s.q : Int) ⟨F.keyTuple, F, a, b⟩ :=
+  site_ok (wfScript_spec hw) hin.toInputBase hd hsc hc hr hstr ha hai haab ham hb hbi hbab hbm habut
+
+/-! ### non-vacuity: `C02Deep`'s example as a script (texel 8 bp; margin `3·errLen = 27`) -/
+
+private def e2 : Fragment := { oid := 2, name := "ctgA2".toList, start := 1, stop := 80, strand := -1 }
+/-- 240 bp: a1 1-100, gap, e2 111-190 (reverse contig), gap, a3 201-240 -/
+private def sD : Scaffold := { name := "scaffold_1".toList, rows := [.frag a1, .gap g10, .frag e2, .gap g10, .frag a3] }
+private def inpD : List Scaffold := [sD, sB]
+/-- `scaffold_1` = exactly 30 texels, cut after texel 6 (48 | 49: inside the forward contig a1, 48 resp. 52 bases from its
+    ends) and after texel 19 (152 | 153: inside the reverse contig at 111..190, 42 resp. 38 bases from its ends);
+    `scaffold_2`: 18 texels (floor, 144), cut after texel 10 (80 | 81, the contig boundary).
+    Same rearrangement as in `C02Deep`: the middle piece of `scaffold_1` reversed + head of `scaffold_2`;
+    tail of `scaffold_2` + tail of `scaffold_1` + reversed head of `scaffold_1`.
+    [`C02Deep`'s own cut 150 | 151 is not a texel boundary at 8 bp; 152 | 153 is.] -/
+private def scrD : Script :=
+  { p := 8, q := 1,
+    scafs := [{ T := 30, cuts := [6, 19] }, { T := 18, cuts := [10] }],
+    groups := [{ items := [{ sc := 0, k := 1, minus := true }, { sc := 1, k := 0 }] },
+               { items := [{ sc := 1, k := 1 }, { sc := 0, k := 2 }, { sc := 0, k := 0, minus := true }] }],
+    gap := jg }
+
+example : wfScript inpD scrD = true := by decide
+example : ptxOf inpD scrD =
+    [{ name := "Scaffold_1".toList, rows := [pc sD.name 49 152 (-1), .gap jg, pc sB.name 1 80 1] },
+     { name := "Scaffold_2".toList,
+       rows := [pc sB.name 81 144 1, .gap jg, pc sD.name 153 240 1, .gap jg, pc sD.name 1 48 (-1)] }] := by decide
+example : InputOk inpD := inputOk_of_check (by decide)
+example : (∀ sc ∈ inpD, (C18.ids sc.rows).Nodup) ∧ ∀ sc ∈ inpD, ∀ f ∈ sc.fragments, f.strand = 1 ∨ f.strand = -1 := by
+  decide
+example : DeepScript inpD scrD := deepScript_of_check (by decide +kernel)
+example : ¬ CleanScript inpD scrD := by
+  intro h
+  have := (h 0 sD _ rfl rfl rfl).cuts 6 (by decide) 0 a1 rfl
+  revert this
+  decide +kernel
+example : HeadsOk inpD scrD ∧ TailOk inpD scrD := ⟨headsOk_of_check (by decide +kernel), tailOk_of_check (by decide +kernel)⟩
+example : ∀ g ∈ scrD.groups, g.painted = false := by decide
+example : NoClashDeepN inpD (ptxOf inpD scrD) jg := by unfold NoClashDeepN; decide +kernel
+/-- what the theorem gives, independently re-checked by the Bool checker of `C02Deep` -/
+example : deepCutNB inpD (ptxOf inpD scrD) 9 = true := by decide +kernel
+/-- the chains: the reverse contig (pieces 0 and 3), the forward contig a1 (pieces 4 and 0) -/
+example : (sitesN inpD (ptxOf inpD scrD)).map (fun x => (x.frag.name, x.chain)) =
+    [(e2.name, [0, 3]), (a1.name, [4, 0])] := by decide +kernel
+/-- `remap`, evaluated by the kernel independently of the theorems: the specified output, 2 cuts -/
+example : (remap inpD (ptxOf inpD scrD) "SUPER_".toList (some jg) 9).toOption.map (·.1) =
+    some (primaryOnly (expectedScaffoldsDeepN inpD (ptxOf inpD scrD) jg)) := by decide +kernel
+example : (remap inpD (ptxOf inpD scrD) "SUPER_".toList (some jg) 9).toOption.map (fun r => r.2.cuts) = some 2 := by
+  decide +kernel
+
+/-! ### … and a contig cut TWICE (texel 2 bp; `errLen = 3`, margin 9) -/
+
+/-- `scaffold_1` (240 bp = 120 texels) cut at 30 | 31 and 70 | 71 — both inside a1, the middle piece lies wholly inside it
+    — and at 150 | 151 inside the reverse contig; `scaffold_2` (145 bp: 72 texels, floor, 144) uncut -/
+private def scrD2 : Script :=
+  { p := 2, q := 1,
+    scafs := [{ T := 120, cuts := [15, 35, 75] }, { T := 72 }],
+    groups := [{ items := [{ sc := 0, k := 1, minus := true }, { sc := 0, k := 3 }] },
+               { items := [{ sc := 1, k := 0 }, { sc := 0, k := 2, minus := true }, { sc := 0, k := 0 }] }] }
+
+example : wfScript inpD scrD2 = true := by decide
+example : (scrD2.scafs.map (fun c => c.spans 2 1)) = [[(1, 30), (31, 70), (71, 150), (151, 240)], [(1, 144)]] := by decide
+example : DeepScript inpD scrD2 ∧ HeadsOk inpD scrD2 ∧ TailOk inpD scrD2 :=
+  ⟨deepScript_of_check (by decide +kernel), headsOk_of_check (by decide +kernel), tailOk_of_check (by decide +kernel)⟩
+/-- a1 is held by the pieces at map positions 4 (1..30), 0 (31..70), 3 (71..150): one chain of three -/
+example : (sitesN inpD (ptxOf inpD scrD2)).map (fun x => (x.frag.name, x.chain)) =
+    [(a1.name, [4, 0, 3]), (e2.name, [3, 1])] := by decide +kernel
+example : deepCutNB inpD (ptxOf inpD scrD2) 3 = true := by decide +kernel
+example : (remap inpD (ptxOf inpD scrD2) "SUPER_".toList (some jg) 3).toOption.map (fun r => r.2.cuts) = some 3 := by
+  decide +kernel
 
 end AgpTpf.C02
